@@ -49,6 +49,14 @@ pub struct Case {
     pub entropy: u64,
     pub mode: Mode,
     pub program: Program,
+    /// the embedder's Env: 1 = built without writers (`Env::new(None, None, Some(flag))`), 2 = with writers whose
+    /// flush fails (a closed pipe: halting must still return the context)
+    #[serde(default)]
+    pub env_kind: u8,
+}
+
+thread_local! {
+    static ENV_KIND: std::cell::Cell<u8> = std::cell::Cell::new(0);
 }
 
 pub type Vars = BTreeMap<String, String>;
@@ -174,7 +182,12 @@ fn run_once(program: &Program, env: &WorkerEnv, at: Option<(u64, Pos)>, budget: 
     let flag = Arc::new(AtomicBool::new(false));
     let snaps = std::rc::Rc::new(std::cell::RefCell::new(Vec::new()));
     sim::reset(Some(Box::new(HaltObs { after: Default::default(), flag: flag.clone(), at, current_d0: None, snapshots: snaps.clone(), done: false })));
-    sim::with_core(|c| c.budget = budget);
+    sim::with_core(|c| {
+        c.budget = budget;
+        let k = ENV_KIND.with(|k| k.get());
+        c.env_no_writers = k == 1;
+        c.env_flush_fails = k == 2;
+    });
     let res = std::panic::catch_unwind(std::panic::AssertUnwindSafe(|| run_program(program, env, flag)));
     let _ = sim::take_observer();
     let log = sim::with_core(|c| std::mem::take(&mut c.log));
@@ -726,18 +739,33 @@ impl Prop for C13 {
         } else {
             Mode::A { only: None }
         };
-        serde_json::to_value(Case { entropy: rng.next_u64(), mode, program }).unwrap()
+        let env_kind = match rng.below(12) {
+            0 => 1,
+            1 => 2,
+            _ => 0,
+        };
+        serde_json::to_value(Case { entropy: rng.next_u64(), mode, program, env_kind }).unwrap()
     }
     fn execute(&self, case: &Value, env: &WorkerEnv) -> Outcome {
         let case: Case = match serde_json::from_value(case.clone()) {
             Ok(c) => c,
             Err(e) => return Outcome::collect(Verdict::Inconclusive { reason: format!("bad case: {}", e) }, true),
         };
-        let (verdict, log, fired, probes) = match &case.mode {
+        ENV_KIND.with(|k| k.set(case.env_kind));
+        let (verdict, log, mut fired, mut probes) = match &case.mode {
             Mode::A { only } => mode_a(&case.program, env, only),
             Mode::B { sched, sched_seed, yields } => mode_b(&case.program, env, sched, *sched_seed, *yields),
             Mode::Long { k } => mode_long(*k, env),
         };
+        ENV_KIND.with(|k| k.set(0));
+        match case.env_kind {
+            1 => *probes.entry("env-without-writers".to_string()).or_insert(0) += 1,
+            2 => {
+                *probes.entry("env-whose-flush-fails".to_string()).or_insert(0) += 1;
+                *fired.entry("F7".to_string()).or_insert(0) += 0;
+            }
+            _ => {}
+        }
         sim::reset(None);
         sim::with_core(|c| {
             c.log = log;
